@@ -473,9 +473,11 @@ impl OrderedSingleAggregateStream {
                             return Self::break_with_err(e);
                         };
                         if table.is_empty() {
-                            return Self::break_with_internal_err(
+                            // Nothing to spill: the memory limit is too small for this
+                            // operator, which is resource exhaustion and not a bug
+                            return Self::break_with_err(e.context(
                                 "Ordered single aggregate ran out of memory with no aggregated groups",
-                            );
+                            ));
                         }
                         return ControlFlow::Continue(
                             OrderedSingleAggregateState::Spilling {
